@@ -13,6 +13,7 @@ import (
 	"sort"
 	"strings"
 	"sync/atomic"
+	"time"
 
 	"github.com/gauss-project/aurorafs/pkg/boson"
 	"github.com/gauss-project/aurorafs/pkg/file/loadsave"
@@ -388,4 +389,52 @@ func (w *World) Restart() error {
 	mininode.ConnectReplacing(w.Src, n)
 	w.N, w.fault, w.faultName = n, f, name
 	return nil
+}
+
+// ParkedCollect runs one collection run of n's store in a goroutine, parks it at a point
+// inside the run, performs during() and resumes. point "selected": between candidate
+// selection and eviction (the existing testHookGCIteratorDone point); point "candidate":
+// before the first candidate file is handed to chunkinfo for eviction (verifhook point
+// localstore.gc.candidate). It reports whether the run got as far as the parking point.
+// fail is called (test becomes inconclusive) when the run does not move within 120 s.
+func ParkedCollect(n *mininode.Node, point string, during func(), fail func(string)) (parked bool) {
+	reached := make(chan struct{})
+	release := make(chan struct{})
+	var once int32
+	park := func() {
+		if !atomic.CompareAndSwapInt32(&once, 0, 1) {
+			return
+		}
+		close(reached)
+		<-release
+	}
+	if point == "candidate" {
+		verifhook.Set("localstore.gc.candidate", func(interface{}) { park() })
+		defer verifhook.Set("localstore.gc.candidate", nil)
+	} else {
+		localstore.VerifSetGCIteratorDone(park)
+		defer localstore.VerifSetGCIteratorDone(nil)
+	}
+	done := make(chan struct{})
+	go func() {
+		defer close(done)
+		_, _, _ = n.Store.VerifCollectGarbage()
+	}()
+	select {
+	case <-reached:
+		parked = true
+		during()
+		close(release)
+	case <-done:
+		return false
+	case <-time.After(120 * time.Second):
+		fail("collection run neither reached the parking point nor returned within 120 s")
+		return false
+	}
+	select {
+	case <-done:
+	case <-time.After(120 * time.Second):
+		fail("parked collection run did not finish within 120 s after release")
+	}
+	return parked
 }
